@@ -70,9 +70,8 @@ func replayKeyLengths(tr *Trace) error {
 }
 
 func runKeyLengths(t *testing.T, id string) {
-	spec := specByID(id)
 	stats.Property = id
-	stats.Rule = spec.Rule
+	stats.Rule = "sort-key length sweep: collation keys ('a' repeated n times plus 0..4 Han characters) whose sort-key lengths cover every value in windows around 2^8 .. 2^14 are inserted and looked up, with ordered scans, extremes and a final sweep against the model; non-trivial = every case; distinct by (kind, window)"
 	rapid.Check(t, func(rt *rapid.T) {
 		kn := "coll:" + pick(rt, []string{"und", "und", "de", "en-num"}, "cfg") + ":" + pick(rt, []string{"string", "bytes"}, "kt")
 		if drawInt(rt, 0, 3, "runes") == 0 {
